@@ -10,7 +10,7 @@ use crate::{error::Result, node::Node};
 use ant_networking::{GetRecordCfg, Network};
 use ant_protocol::{
     messages::{Cmd, Query, QueryResponse, Request, Response},
-    storage::RecordType,
+    storage::{RecordHeader, RecordKind, RecordType},
     NetworkAddress, PrettyPrintRecordKey,
 };
 use libp2p::{
@@ -18,6 +18,7 @@ use libp2p::{
     PeerId,
 };
 use tokio::task::spawn;
+use xor_name::XorName;
 
 impl Node {
     /// Sends _all_ record keys every interval to all peers within the REPLICATE_RANGE.
@@ -91,14 +92,35 @@ impl Node {
                 debug!(
                     "Got Replication Record {pretty_key:?} from network, validating and storing it"
                 );
+                let fetched = Self::fetched_record_type(&record).map(|t| (record.key.clone(), t));
                 if let Err(err) = node.store_replicated_in_record(record).await {
                     error!("During store replication fetched {pretty_key:?}, got error {err:?}");
                 } else {
                     debug!("Completed storing Replication Record {pretty_key:?} from network.");
+                    // A valid copy that needs no store (chunk already held, nothing new to merge)
+                    // results in no `PutLocalRecord`, hence the replication_fetcher never got told
+                    // that the fetch is done: the entry blocks a fetch slot till timed out and the
+                    // holder then got wrongly reported as failed. Mark the attempt as completed.
+                    if let Some((key, record_type)) = fetched {
+                        node.network().notify_fetch_completed(key, record_type);
+                    }
                 }
             });
         }
         Ok(())
+    }
+
+    /// The `RecordType` the holder advertised for the record it served
+    /// (derived from the content the same way as when the holder stored it).
+    fn fetched_record_type(record: &Record) -> Option<RecordType> {
+        match RecordHeader::from_record(record).ok()?.kind {
+            RecordKind::Chunk => Some(RecordType::Chunk),
+            RecordKind::Scratchpad => Some(RecordType::Scratchpad),
+            RecordKind::Transaction | RecordKind::Register => {
+                Some(RecordType::NonChunk(XorName::from_content(&record.value)))
+            }
+            _ => None,
+        }
     }
 
     /// Replicate a fresh record to its close group peers.
